@@ -108,7 +108,8 @@ def run(ctx):
     # ---- leg A
     vlib.tlc_mc(ctx, SPEC, "c05_design.cfg", label="C05 design: admission, lifetimes, TTL rule, lazy refresh",
                 cfg_text=cl.cfg(inv=INV, MaxOps="5" if T else "4", Resps="<- RespsC05" if T else "<- RespsC05small", LazyTTLs="{0, 50}",
-                                Ticks="{3, 7, 28, 32}", MaxNow="80", OpKinds='{"exec", "tick", "refresh"}', **ONEQ))
+                                Ticks="{3, 7, 28, 32}", MaxNow="80", OpKinds='{"exec", "tick", "refresh"}',
+                                **(dict(ONEQ, Types='{"t1", "t2"}') if T else ONEQ)))
     nvs = [("TTLMode", '"expiry"', "TTLRule"), ("TTLMode", '"noclamp"', "TTLRule"), ("TTLMode", '"staleaged"', "StaleRule"),
            ("Admit", '"tc"', "AdmissionRule"), ("Admit", '"rcode"', "AdmissionRule"), ("Admit", '"zero"', "AdmissionRule"),
            ("Admit", '"nxlong"', "AdmissionRule"), ("Admit", '"nxlong"', "NeverServedAfterExpiry"), ("Dedup", "FALSE", "AtMostOneRefresh")]
